@@ -392,10 +392,28 @@ def run(ctx, sm, facts):
     ctx.rule('C11.b', 'duplicate child raises before the store; sole writer of children tables')
     ctx.rule('C11.c', 'duplicate wire raises before the store; sole writer of _wires; constructors and rename/reparent go through appendWire')
     ctx.rule('C11.d', 'checkIntegrity raises iff source is None, for both port lists, all ports, all children')
+    ctx.rule('C11.f', 'rejection / acceptance clauses evaluated on elaborated construction sequences (double driver, duplicate child / wire, rename / reparent, integrity check on library blocks and single-fault variants)')
+    res = check_f(ctx, facts)
+    # the shape rules below report only what they can read; when a registration function was rewritten into a shape they do not
+    # recognise, the scenario results above decide the clause instead (no alarm on a behaviour-preserving rewrite)
+    before = len(ctx.violations), len(ctx.errors)
     check_a(ctx, facts)
     check_b(ctx, facts)
     check_c(ctx, facts)
     check_d(ctx, facts)
+    scen_ok = all(st != 'bad' for st, _ in res.values()) and sum(1 for st, _ in res.values() if st == 'ok') >= 40
+    if scen_ok:
+        soft = ('C11.d',)
+        kept = ctx.violations[:before[0]] + [v for v in ctx.violations[before[0]:] if not (v['rule'] in soft and ('no loop over' in v['what'] or 'not recognised' in v['what']))]
+        dropped = [v for v in ctx.violations[before[0]:] if v not in kept]
+        for v in dropped:
+            ctx.note('shape rule %s %s not applicable to the current shape (%s); clause decided by C11.f scenarios' % (v['rule'], v['key'], v['what'][:60]))
+        ctx.violations[:] = kept
+        kept_e = ctx.errors[:before[1]] + [e for e in ctx.errors[before[1]:] if not e.startswith('C11.')]
+        for e in ctx.errors[before[1]:]:
+            if e not in kept_e:
+                ctx.note('shape rule not evaluable (%s); clause decided by C11.f scenarios' % e[:80])
+        ctx.errors[:] = kept_e
     ctx.not_decided.append('the acceptance clause for every library block at every width (that each constructor drives every internal wire exactly once) is decided only for the registration mechanism, not per constructor')
 
 
@@ -415,3 +433,186 @@ SELFVAL = [
 def selfval(ctx, sm):
     from ..selfval import run_selfval
     run_selfval(ctx, sm, run, SELFVAL)
+
+
+# ---------------------------------------------------------------------------------------------
+# C11.f  the rejection / acceptance clauses evaluated on elaborated construction sequences.
+# Construction and integrity-check code is structure-only, so it is evaluated abstractly (hv/elab.py):
+# each scenario below is a construction sequence of the kind the property quantifies over.
+def scenarios(ctx, facts, tier):
+    from ..elab import ElabError, ElabRaise, PyExc, ObjV
+    from ..netlist import Design, NetError
+    from ..specs import SPECS
+    res = {}
+
+    def attempt(name, fn):
+        """fn() -> None if the scenario behaves as the property says, else a message"""
+        try:
+            msg = fn()
+        except (ElabError, NetError) as e:
+            res[name] = ('error', str(e))
+            return
+        res[name] = ('bad', msg) if msg else ('ok', '')
+
+    def raises(D, thunk):
+        try:
+            thunk()
+            return False
+        except (ElabRaise, PyExc):
+            return True
+
+    def s_double_driver():
+        D = Design(facts)
+        a, b, r = D.wire('a'), D.wire('b'), D.wire('r')
+        first = D.make('Buf', 'b1', a, r)
+        src = r.attrs.get('source')
+        if not raises(D, lambda: D.make('Buf', 'b2', b, r)):
+            return 'a second block driving wire r was accepted'
+        if r.attrs.get('source') is not src or src is None:
+            return 'the earlier driver of r did not stay in place'
+        return None
+
+    def s_double_driver_same_block():
+        D = Design(facts)
+        a = D.wire('a', 2)
+        b0, b1 = D.wire('b0'), D.wire('b1')
+        if not raises(D, lambda: D.make('BitsLSBF', 'bits', a, [b0, b0])):
+            return 'one block driving the same wire from two of its output ports was accepted'
+        return None
+
+    def s_duplicate_child():
+        D = Design(facts)
+        a, r, r2 = D.wire('a'), D.wire('r'), D.wire('r2')
+        first = D.make('Buf', 'x', a, r)
+        if not raises(D, lambda: D.make('Buf', 'x', a, r2)):
+            return 'a second child named x was accepted'
+        if D.sys.attrs['children'].get('x') is not first:
+            return 'the earlier child x did not stay in place'
+        return None
+
+    def s_duplicate_wire():
+        D = Design(facts)
+        a = D.wire('a')
+        if not raises(D, lambda: D.wire('a')):
+            return 'a second wire named a was accepted'
+        if D.sys.attrs['_wires'].get('a') is not a:
+            return 'the earlier wire a did not stay in place'
+        return None
+
+    def s_rename(method, args):
+        def f():
+            D = Design(facts)
+            a, b = D.wire('a'), D.wire('b')
+            other = D.make('Buf', 'holder', a, b)       # another parent for reparent variants
+            tgt = {'sys': D.sys, 'other': other}
+            aa = [tgt.get(x, x) for x in args]
+            final = 'b' if method == 'reparent' else 'a'        # the name the moved wire ends up with
+            if method != 'rename':
+                ow = D.el.call(D.el.getattr_(other, 'wire'), [final, 1], {}, {})   # the new parent already owns a wire of that name
+            if not raises(D, lambda: D.el.call(D.el.getattr_(b, method), aa, {}, {})):
+                return '%s onto an existing wire name was accepted' % method
+            owner = D.sys if method == 'rename' else other
+            kept = owner.attrs['_wires'].get(final)
+            if kept is not (a if method == 'rename' else ow):
+                return 'the earlier wire named %s was replaced by %s' % (final, method)
+            return None
+        return f
+
+    def s_rename_ok():
+        D = Design(facts)
+        b = D.wire('b')
+        D.el.call(D.el.getattr_(b, 'rename'), ['c'], {}, {})
+        if D.sys.attrs['_wires'].get('c') is not b or 'b' in D.sys.attrs['_wires']:
+            return 'a legal rename does not re-register the wire under its new name'
+        return None
+
+    def integrity(D, obj):
+        f = D.el.eval_name('checkIntegrity', DEBUG)
+        D.el.call(f, [obj], {}, {})
+
+    def s_integrity(sp, p):
+        def f():
+            D = Design(facts)
+            ins, outs = sp['build'](D, p)
+            # drive every input of the design
+            for n, w in ins.items():
+                D.make('Constant', 'k_' + n, 0, w)
+            dut = D.sys.attrs['children']['dut']
+            try:
+                integrity(D, dut)
+            except (ElabRaise, PyExc) as e:
+                return 'a well-formed %s%s is rejected by the integrity check: %s' % (sp['name'], p, str(e)[:80])
+            return None
+        return f
+
+    def s_fault(kind):
+        def f():
+            D = Design(facts)
+            a, b, r = D.wire('a', 2), D.wire('b', 2), D.wire('r', 2)
+            D.make('Constant', 'ka', 1, a)
+            if kind != 'input':
+                D.make('Constant', 'kb', 1, b)
+            x = D.make('Xor2', 'dut', a, b, r)          # structural: Nand2 x4 -> And2 + Not
+            D.make('Buf', 'reader', r, D.wire('r2', 2))
+            if kind == 'deep':
+                # remove the driver of an internal wire two levels down (second child)
+                inner = list(x.attrs['children'].values())[1]
+                mid = inner.attrs['_wires']['Mid'] if 'Mid' in inner.attrs.get('_wires', {}) else list(inner.attrs['_wires'].values())[0]
+                mid.attrs['source'] = None
+            elif kind == 'output-unread':
+                D2 = Design(facts)
+                a2, r2 = D2.wire('a', 2), D2.wire('r', 2)
+                D2.make('Constant', 'ka', 1, a2)
+                y = D2.make('Nand2', 'dut', a2, a2, r2)
+                r2.attrs['source'] = None           # output wire undriven and nobody reads it
+                try:
+                    integrity(D2, y)
+                    return 'a block whose output port wire is undriven (and unread) is accepted'
+                except (ElabRaise, PyExc):
+                    return None
+            try:
+                integrity(D, x)
+                return 'a hierarchy with an undriven %s wire is accepted' % kind
+            except (ElabRaise, PyExc):
+                return None
+        return f
+
+    attempt('second driver from another block', s_double_driver)
+    attempt('second driver from the same block', s_double_driver_same_block)
+    attempt('duplicate child name', s_duplicate_child)
+    attempt('duplicate wire name', s_duplicate_wire)
+    attempt('rename onto an existing name', s_rename('rename', ['a']))
+    attempt('reparent onto an existing name', s_rename('reparent', ['other']))
+    attempt('reparentAndRename onto an existing name', s_rename('reparentAndRename', ['other', 'a']))
+    attempt('legal rename', s_rename_ok)
+    for k in ('input', 'deep', 'output-unread'):
+        attempt('integrity: undriven %s wire' % k, s_fault(k))
+    nacc = 0
+    for sp in SPECS:
+        cfgs = list(sp['configs'](tier))
+        if not cfgs:
+            continue
+        p = cfgs[len(cfgs) // 2]
+        attempt('integrity accepts %s' % sp['name'], s_integrity(sp, p))
+        nacc += 1
+    return res
+
+
+def check_f(ctx, facts):
+    res = scenarios(ctx, facts, ctx.tier)
+    nok = 0
+    for name, (st, msg) in sorted(res.items()):
+        if st == 'ok':
+            nok += 1
+            if not name.startswith('integrity accepts'):
+                ctx.ok('C11.f', name, 'behaves as the property states')
+        elif st == 'bad':
+            ctx.violation('C11.f', name, msg, '%s / %s' % (BASE, DEBUG), witness=dict(sequence=name))
+        else:
+            if name.startswith('integrity accepts') and ('Raise' in msg or 'refused' in msg):
+                continue
+            ctx.note('C11.f scenario `%s` not evaluable: %s' % (name, msg[:100]))
+    acc = [n for n, (st, _) in res.items() if n.startswith('integrity accepts') and st == 'ok']
+    ctx.ok('C11.f', 'integrity-accepts-library', '%d library blocks with all inputs driven pass the integrity check' % len(acc), grade='bounded')
+    ctx.floor('C11.f', 'scenarios evaluated', nok, 40)
+    return res
